@@ -86,9 +86,21 @@ def drive(driver, scenarios, shards=NCPU, env_extra=None, timeout=3600):
         shutil.rmtree(work, ignore_errors=True)
 
 
+def _no_nulls(x):
+    """TLC's JsonDeserialize cannot read the JSON value null: a None that a (changed) library put into a recorded field becomes
+    the string "<null>" - a value no specification expects, so the trace is rejected instead of the validation failing to run"""
+    if x is None:
+        return '<null>'
+    if isinstance(x, dict):
+        return {k: _no_nulls(v) for k, v in x.items()}
+    if isinstance(x, (list, tuple)):
+        return [_no_nulls(v) for v in x]
+    return x
+
+
 def _validate_one(module, cfg, traces, work, idx, timeout, env_extra):
     tf = os.path.join(work, 'traces_%d.json' % idx)
-    json.dump(traces, open(tf, 'w'))
+    json.dump([dict(t, **{k: _no_nulls(v) for k, v in t.items() if k != 'scn'}) for t in traces], open(tf, 'w'))
     env = {'TRACE_FILE': tf}
     env.update(env_extra or {})
     r = tlc.run_tlc(module, cfg, workers=1, env=env, timeout=timeout)
